@@ -12,6 +12,25 @@ AccNext(acc, pre, e, post) ==
    c07 |-> C07AccNext(acc.c07, pre, e, post),
    c12 |-> C12AccNext(acc.c12, pre, e, post)]
 
+\* C08, substituted price accounts (any of a bank's oracle slots replaced by an account that is not the configured
+\* one): a liquidation that needs that price is refused; for borrowing and withdrawing the position behind it counts
+\* as worth nothing (the reference valuation already treats a substituted account as unusable), so the account must be
+\* initially healthy without it
+SubstBanks(e) ==
+  (IF Has(e.a, "oracle_sub") THEN DOMAIN e.a.oracle_sub ELSE {}) \cup (IF Has(e.a, "oracle_sub_slots") THEN DOMAIN e.a.oracle_sub_slots ELSE {})
+RealSubst(pre, e, bn) ==
+  Has(pre.banks, bn) /\ \E i \in 1..3 : PresentedSlot(e, bn, pre.banks[bn], i) # pre.banks[bn].cfg.oracle_keys[i]
+C08Sub(pre, e, post, line) ==
+  (Ok(e) /\ ~Has(e.a, "cell") /\ \E bn \in SubstBanks(e) : RealSubst(pre, e, bn)) =>
+    /\ (e.ev = "liquidate") =>
+         Chk("C08", "liquidation_with_substituted_price_account_rejected", line,
+             ~(RealSubst(pre, e, e.a.asset_bank) \/ RealSubst(pre, e, e.a.liab_bank)), [asset_bank |-> e.a.asset_bank, liab_bank |-> e.a.liab_bank])
+    /\ (e.ev \in {"borrow", "withdraw"} /\ Has(post.accts, e.a.acct) /\ ~Bit(post.accts[e.a.acct].flags, ACC_FLASHLOAN)
+        /\ ~Bit(post.accts[e.a.acct].flags, ACC_RECEIVERSHIP)) =>
+         LET h == HealthRef(post, e, post.accts[e.a.acct], "Init", "fav") IN
+         (h.known /\ (e.ev = "borrow" \/ BIsPos(FoldSet(LAMBDA i, acc : BAdd(post.accts[e.a.acct].bal[i].l, acc), BZero, ActiveSlots(post.accts[e.a.acct]))))) =>
+           Chk("C08", "substituted_price_account_contributes_no_value", line, RGe(Health(h), RNeg(h.tol)), [acct |-> e.a.acct, ev |-> e.ev])
+
 Wired == {"C01", "C02", "C03", "C04", "C05", "C06", "C07", "C08", "C09", "C10", "C11", "C12", "C13", "C14", "C15", "C16", "C17", "C18", "C19", "C20"}
 
 \* invariants evaluated on a freshly reset state
@@ -31,7 +50,7 @@ CheckStepP(want, pre, e, post, acc, line) ==
   /\ (want["C07"]) => C07(pre, e, post, acc.c07, line)
   /\ (want["C09"]) => C09(pre, e, post, line)
   /\ (want["C13"]) => C13(pre, e, post, line)
-  /\ (want["C08"]) => C08(pre, e, post, line)
+  /\ (want["C08"]) => (C08(pre, e, post, line) /\ C08Sub(pre, e, post, line))
   /\ (want["C12"]) => C12(pre, e, post, acc.c12, line)
   /\ (want["C19"]) => C19(pre, e, post, line)
   /\ (want["C10"]) => C10(pre, e, post, line)
